@@ -27,6 +27,8 @@ def run(chk, args):
         # player counts beyond 6: 2^n passes 64 (seeds C04-d, C08-d: a 64-bit key over coalitions silently wraps there)
         {"family": "any", "ns": "7,8", "count": 3 if q else 16, "length": 12},
         {"family": "sam", "ns": "7", "count": 3 if q else 16, "length": 10, "reps": "0,1,10"},
+        # 2^n = 512 (seed C01-e: a uint8 cast loses the players from 8 upwards); n = 10 in the thorough tier
+        {"family": "sa", "ns": "9", "count": 3 if q else 8, "length": 6},
     ])
     from common_bounds import replay_bounds_behaviours
     replay_bounds_behaviours(chk, "ANY3", {"N": 3, "cls": "ANY", "sing": "m1to1", "slacks": "0to3", "computers": {"sa", "sac", "sam"}, "reps": {0, 1, 2}, "maxchg": 4},
